@@ -499,6 +499,13 @@ def run_target_function(
         # execute the transaction and yield output states
         yield from sevm.run_message(ex, message, path)
 
+        # loop-bound cuts inside this call would otherwise go unnoticed: the logs of this sevm are not read anywhere else
+        if sevm.logs.bounded_loops:
+            warn_code(
+                LOOP_BOUND,
+                f"{fun_info.contract_name}.{fun_info.sig}: paths have not been fully explored due to the loop unrolling bound: {args.loop}",
+            )
+
     finally:
         reset(solver)
 
